@@ -10,6 +10,7 @@ def _drive(ctx, bdir, binary, jobs):
             env = dict(os.environ)                      # sanitizer failures must reach the SIGABRT handler (which logs a Crash event)
             env.setdefault('ASAN_OPTIONS', 'abort_on_error=1:detect_leaks=1:allocator_may_return_null=1')
             env.setdefault('UBSAN_OPTIONS', 'abort_on_error=1:halt_on_error=1:print_stacktrace=1')
+            env.setdefault('TSAN_OPTIONS', 'halt_on_error=0:exitcode=66:history_size=4:report_thread_leaks=0:log_path=%s.tsan' % out)   # a report = exit code 66 of the execution, text in <trace>.tsan.<pid>
             with open(out + '.err', 'wb') as errf:      # sanitizer reports of the driver, for triage
                 subprocess.run([os.path.join(bdir, binary)] + [str(a) for a in args] + [out], stdout=subprocess.DEVNULL,
                                stderr=errf, timeout=1800, env=env)
@@ -56,8 +57,14 @@ def _mc_all(ctx, mcs):
     res = []; viol = []; infra = []
     for m in mcs:
         r = ctx['run_mc'](m)
-        ctx['log']('MC %-18s distinct=%d generated=%d %.0fs %s' % (m['name'], r['distinct'], r['states'], r['wall_s'], 'ok' if r['ok'] else 'FAILED'))
-        if not r['ok']:
+        ctx['log']('MC %-18s distinct=%d generated=%d %.0fs %s' % (m['name'], r['distinct'], r['states'], r['wall_s'],
+                   ('rejected by TLC, as this negative control must be' if r['violated'] else 'NOT REJECTED') if m.get('expect_violation') else ('ok' if r['ok'] else 'FAILED')))
+        if m.get('expect_violation'):
+            # negative control: a design the specification must reject (otherwise the property is vacuous in the model)
+            if not r['violated']:
+                infra.append({'mc': m['name'], 'out': 'negative control was NOT rejected by TLC: ' + r['out'][-1500:]})
+            r['ok'] = bool(r['violated'])
+        elif not r['ok']:
             if r['violated']:
                 p = os.path.join(ctx['verif'], 'evidence', 'replay', '%s-mc-%s.txt' % (ctx['prop'], m['name']))
                 os.makedirs(os.path.dirname(p), exist_ok=True)
@@ -78,7 +85,7 @@ def api_runner(spec_workloads, mcs=(), tv_spec='TV_API', binary='api_drv', varia
         jobs = []
         for (wl, nexec, ln, shards) in spec_workloads[ctx['tier']]:
             for sh in range(shards):
-                out = os.path.join(ctx['rundir'], '%s-%d.ndjson' % (wl, sh))
+                out = os.path.join(ctx['rundir'], '%s-%s-%d.ndjson' % (tag, ''.join(ch if ch.isalnum() else '_' for ch in wl)[:48], sh))
                 jobs.append(((wl, ctx['seed'] * 100003 + sh * 7919 + 1, nexec, ln), out))
         t0 = time.time()
         traces = _drive(ctx, bdir, binary, jobs)
@@ -345,3 +352,23 @@ PLANS['C11'] = {'level': 'model_checking', 'tv_spec': 'TV_LU', 'tv_env': {'LUMOD
 # C13 covers four readers: LP / MPS / basis files (api_drv 'readers') and settings files (params_drv 'fuzz'), both in the sanitizer build
 PLANS['C13']['run'] = combo_runner(PLANS['C13']['run'],
                                    params_runner({'quick': (12, 60, 8), 'thorough': (120, 80, 16)}, wl='fuzz', variant='asanub', tag='set'))
+
+# C18: K threads, each with its own objects / seed / trace, run concurrently (under ThreadSanitizer) and then alone;
+# every per-thread trace is validated against TV_API and closed by the "alone" comparison (TVAlone)
+_W16 = 'threads:16:mods@30+cert@3+exact@3+files@6+basis@30+sync@40+cert2@3+scale@40+limits@12+binv@10+cint@40+readers@6+basfile@8+certbig@2+exactbig@2+limits@12'
+_W8E = 'threads:8:exact@3+exactbig@2+exact@3+limitsq@8+exact@3+exactbig@2+cert@3+exact@3'
+_W4F = 'threads:4:files@6+readers@6+files@6+mods@30'
+_W2M = 'threads:2:mods@30+mods@30'
+_W3S = 'threads:3:scale@40+cert@3+basis@30'
+_THREAD_MCS = [dict(name='Threads', cfg='MC_Threads.cfg', tla='Threads.tla', workers=8, timeout=600, coverage=True),
+               dict(name='ThreadsOldDesign', cfg='MC_ThreadsOld.cfg', tla='Threads.tla', workers=4, timeout=600, expect_violation=True)]
+PLANS['C18'] = {'level': 'model_checking', 'tv_spec': 'TV_API',
+                'run': combo_runner(
+                    api_runner({'quick': [(_W16, 2, 0, 6), (_W8E, 2, 0, 3), (_W4F, 3, 0, 3), (_W2M, 4, 0, 2), (_W3S, 3, 0, 2)],
+                                'thorough': [(_W16, 10, 0, 16), (_W8E, 10, 0, 8), (_W4F, 20, 0, 8), (_W2M, 20, 0, 8), (_W3S, 20, 0, 8)]},
+                               mcs=_THREAD_MCS, variant='tsan', tag='tsan',
+                               assumptions=['ThreadSanitizer (gcc 12 libtsan) sees the code of the library and the harness, not the inside of libgmp/libmpfr/libz',
+                                            'schedules: those the kernel produces for 2..16 threads released together by a barrier on 16 cores (not all interleavings)',
+                                            'the time limit of the exact solves is out of reach in thread mode (the default timer measures process CPU time)']),
+                    api_runner({'quick': [(_W16, 3, 0, 8), (_W8E, 4, 0, 4), (_W2M, 10, 0, 4)],
+                                'thorough': [(_W16, 40, 0, 16), (_W8E, 40, 0, 16), (_W4F, 40, 0, 8), (_W2M, 60, 0, 8)]}, variant='rel', tag='rel'))}
